@@ -29,6 +29,50 @@ def type_range(ty):
     return explore.int_range(ty)
 
 
+_ITER_OK = ("into_iter", "enumerate", "take", "iter", "copied", "cloned", "iter_mut", "by_ref", "next")
+
+
+def enumerate_bound(recv):
+    """Largest index an `enumerate()` over this iterator expression can yield: N-1 under `.take(N)`, A-MEM for an in-memory
+    collection; None when the chain contains an adaptor that is not understood."""
+    take = []
+    ok = [True]
+    src = [False]
+
+    def walk(t, depth=0):
+        if not isinstance(t, tuple) or not t or depth > 60:
+            return
+        if t[0] == "call" and isinstance(t[1], str):
+            nm = t[1].split("::")[-1]
+            if "iter" in t[1].lower() or "Iterator" in t[1]:
+                if nm not in _ITER_OK:
+                    ok[0] = False
+                if nm == "take" and len(t[2]) == 2 and t[2][1][0] == "c":
+                    take.append(t[2][1][1])
+                if nm in ("iter", "iter_mut") or (nm == "into_iter" and "slice" in t[1]):
+                    src[0] = True
+            for a in t[2]:
+                walk(a, depth + 1)
+            return
+        if t[0] == "mut":
+            # iterator state after earlier next() calls: same chain
+            walk(t[3], depth + 1)
+            return
+        if t[0] in ("sym",):
+            walk(t[1], depth + 1)
+            return
+        if t[0] in ("field", "deref", "cast"):
+            walk(t[1], depth + 1)
+    walk(recv)
+    if not ok[0]:
+        return None
+    if take:
+        return max(min(take) - 1, 0)
+    if src[0]:
+        return A_MEM
+    return None
+
+
 class Intervals:
     """Upper/lower bounds of terms from their structure: casts from narrower types, constants, masks, shifts,
     lengths (A-MEM)."""
@@ -64,6 +108,12 @@ class Intervals:
             if th is not None and hi is not None:
                 hi = min(hi, th)
             return (max(src[0], 0), hi)
+        if k == "field" and t[2] == 0 and isinstance(t[1], tuple) and t[1] and t[1][0] == "field" and t[1][2] == 0:
+            x = self.expand(t[1][1])
+            if isinstance(x, tuple) and x and x[0] == "call" and x[1].endswith("Enumerate<I> as std::iter::Iterator>::next") and x[2]:
+                b = enumerate_bound(self.expand(x[2][0]))
+                if b is not None:
+                    return (0, b)
         if k in ("into", "from") and len(t) > 1:
             inner = self.expand(t[1])
             if inner[0] == "sym" and inner[1][0] in ("enum_eq", "cmp", "not"):
@@ -375,8 +425,12 @@ def discharge_assert(kind, op, ops, tys, lin, iv, get_facts):
             if ent(get_facts(), q, lin):
                 return True, "D2 a >= b from path facts"
             return False, "a >= b not proved for subtraction"
-        if op in ("Shl", "Shr") and b[0] == b[1] and b[1] is not None and hi is not None:
-            return True, "constant shift"
+        if op in ("Shl", "Shr") and hi is not None:
+            # the MIR assert of a shift checks the amount against the bit width of the left operand only
+            b2 = iv.of(ops[1], tys[1] if len(tys) > 1 else None)
+            bits = hi.bit_length() if lo == 0 else hi.bit_length() + 1
+            if b2[1] is not None and b2[1] < bits:
+                return True, "D3 interval: shift amount <= %s < %d bits" % (b2[1], bits)
         return False, "no bound for %s (%s, %s) in %s" % (op, a, b, ty)
     if kind in ("div_zero", "rem_zero") and ops:
         d = iv.of(ops[0], tys[0] if tys else None)
